@@ -475,7 +475,8 @@ def c_map(view, bs, coll=None, key_parsed=True):
             okk = False
             if key[0] == "field" and key[2] == "Ok" and key[1][0] == "call":
                 fc = view.callee(key[1][1])
-                if fc.fn is not None and fc.name == "from_str" and key[1][3] and strip_refs(key[1][3][0]) == want_raw:
+                if fc.fn is not None and (fc.name == "from_str" or (fc.name == "parse" and fc.path.startswith("core::str::"))) \
+                        and key[1][3] and strip_refs(key[1][3][0]) == want_raw:
                     okk = True
                     # the Err edge of from_str reports an error that names the key
                     ob += 1
@@ -541,9 +542,18 @@ def c_option(view, bs):
         if kind == "ok":
             t = canon(view, term)
             is_none = t[0] == "agg" and t[1] == "adt" and t[3] == "std::option::Option" and t[4] == "None"
+            is_some_of_child = False
+            if t[0] == "agg" and t[1] == "adt" and t[3] == "std::option::Option" and t[4] == "Some" and t[2]:
+                p0 = t[2][0]
+                if p0[0] == "field" and p0[2] == "Ok" and p0[1][0] == "call":
+                    chs = [ch for ch in bs.children if ch["bb"] == p0[1][1]]
+                    if chs and chs[0]["delegating"] and canon(view, chs[0]["loc"]) == ("param", 2) and not (bb in null_region and _only_via(view, bb, null_t)):
+                        is_some_of_child = True   # `match T::deserialize(value, location) { Ok(x) => Ok(Some(x)), Err(e) => Err(e) }`
             if is_none:
                 if bb in other_region and bb not in null_region or (bb in other_region and bb in null_region and not _only_via(view, bb, null_t)):
                     out.append(finding("C06.OPT", view, "None is produced for an input that is not null", bb))
+            elif is_some_of_child:
+                pass
             else:
                 out.append(finding("C06.OPT", view, "an Ok value other than None is built without deferring to the content type", bb, fmt(t)))
         elif kind == "call":
